@@ -65,4 +65,12 @@ example : sessionEvents (Demo.tr2 4) =
     (∃ r ∈ Demo.tr2 4, r.attached = true ∧ bpGet r.bpsBefore r.pc = none ∧ r.executable = true ∧
       r.status = .cont ∧ r.preSaid = [] ∧ r.reads = [] ∧ r.exec = some 0x3000#16) := by decide +kernel
 
+/-- The environment of the demonstration satisfies the hypothesis of
+`bp_line_only_at_breakpoint_trace`. -/
+example : EnvClean Demo.env0 :=
+  ⟨fun _ _ _ lines h => by
+      simp only [Demo.env0, EvalResult.refused.injEq] at h
+      subst h; simp,
+   fun _ _ h => by simp [Demo.env0] at h⟩
+
 end Lace.C11
